@@ -375,7 +375,13 @@ pub fn run_batch(
     let hangs = Arc::new(AtomicU64::new(0));
     let findings_total = Arc::new(AtomicU64::new(0));
     // in-process engines answer within milliseconds
-    let watchdog = if engine == "e2" { watchdog } else { watchdog.min(Duration::from_secs(20)) };
+    // (cli-sim scenarios consist of up to some thousand CLI runs in the thorough tier, each with a
+    // time limit of its own: the worker watchdog only has to catch a stuck simulator)
+    let watchdog = if engine == "e2" {
+        Duration::from_secs(if tier == Tier::Thorough { 1800 } else { 240 })
+    } else {
+        watchdog.min(Duration::from_secs(20))
+    };
     let total = Arc::new(Mutex::new(BatchStats::default()));
     let mut handles = Vec::new();
     for _ in 0..n_workers {
@@ -520,6 +526,8 @@ pub fn exec_once(cfg: &WorkerCfg, engine: &str, variant: &str, scenario: &Value,
     if engine != "e2" {
         cfg.env.push(("NVSIM_NO_NS".into(), "1".into()));
         watchdog = watchdog.min(Duration::from_secs(20));
+    } else {
+        watchdog = watchdog.max(Duration::from_secs(1800));
     }
     let mut w = Worker::spawn(&cfg);
     let req = json!({"cmd": "exec", "engine": engine, "scenario": scenario});
